@@ -10,6 +10,7 @@ import (
 	"math/big"
 	"os"
 	"runtime"
+	"runtime/debug"
 	"strconv"
 	"strings"
 	"sync"
@@ -524,25 +525,40 @@ func runC18(c *Ctx) {
 		}
 	}
 	// BER nesting depth
-	for _, depth := range []int{10, 100, 1000, 10000} {
+	// Depths beyond the 10^4 the property names are there for the clause "never recurses without bound": the worker caps
+	// goroutine stacks at 32 MiB (debug.SetMaxStack), which a decoder that descends once per level — a few hundred bytes of
+	// stack each — passes at 10^4 levels and cannot pass at 2·10^5 / 10^6. Exceeding the cap is fatal to the process; the
+	// journal names the case.
+	debug.SetMaxStack(32 << 20)
+	for _, depth := range []int{10, 100, 1000, 10000, c.Q(200000, 1000000)} {
 		var def, indef []byte
-		// definite: innermost first
+		// definite: innermost first; headers are collected and written outermost first afterwards
 		inner := []byte{0x04, 0x01, 0x00}
-		def = inner
-		for i := 0; i < depth; i++ {
-			l := len(def)
-			var hdr []byte
-			switch {
-			case l < 0x80:
-				hdr = []byte{0x30, byte(l)}
-			case l < 0x100:
-				hdr = []byte{0x30, 0x81, byte(l)}
-			case l < 0x10000:
-				hdr = []byte{0x30, 0x82, byte(l >> 8), byte(l)}
-			default:
-				hdr = []byte{0x30, 0x83, byte(l >> 16), byte(l >> 8), byte(l)}
+		{
+			var hdrs [][]byte
+			l := len(inner)
+			for i := 0; i < depth; i++ {
+				var hdr []byte
+				switch {
+				case l < 0x80:
+					hdr = []byte{0x30, byte(l)}
+				case l < 0x100:
+					hdr = []byte{0x30, 0x81, byte(l)}
+				case l < 0x10000:
+					hdr = []byte{0x30, 0x82, byte(l >> 8), byte(l)}
+				case l < 0x1000000:
+					hdr = []byte{0x30, 0x83, byte(l >> 16), byte(l >> 8), byte(l)}
+				default:
+					hdr = []byte{0x30, 0x84, byte(l >> 24), byte(l >> 16), byte(l >> 8), byte(l)}
+				}
+				hdrs = append(hdrs, hdr)
+				l += len(hdr)
 			}
-			def = append(hdr, def...)
+			def = make([]byte, 0, l)
+			for i := len(hdrs) - 1; i >= 0; i-- {
+				def = append(def, hdrs[i]...)
+			}
+			def = append(def, inner...)
 		}
 		indef = bytes.Repeat([]byte{0x30, 0x80}, depth)
 		indef = append(indef, inner...)
@@ -554,6 +570,42 @@ func runC18(c *Ctx) {
 			case "x509.ber2der", "x509.ParsePKCS7+use", "x509.ParseCertificate", "x509.ParseCRL", "pkcs12.DecodeAll", "sm2.DecryptAsn1", "x509.ParsePKCS8UnecryptedPrivateKey":
 				cases = append(cases, tcase{d, fmt.Sprintf("nesting-definite/%d", depth), def, -1}, tcase{d, fmt.Sprintf("nesting-indefinite/%d", depth), indef, -1},
 					tcase{d, fmt.Sprintf("nesting-unterminated/%d", depth), unterminated, -1})
+			}
+		}
+	}
+	// BER width: one constructed value with very many small members (flat, not nested). Whatever a decoder does per member
+	// has to be independent of how much input follows, or the whole is quadratic: invisible at corpus sizes, seconds at a
+	// few hundred kilobytes. Sizes are chosen so that a linear decoder stays three orders of magnitude inside the budget.
+	for _, n := range []int{1000, 20000, c.Q(200000, 500000)} {
+		derLen := func(l int) []byte {
+			switch {
+			case l < 0x80:
+				return []byte{byte(l)}
+			case l < 0x100:
+				return []byte{0x81, byte(l)}
+			case l < 0x10000:
+				return []byte{0x82, byte(l >> 8), byte(l)}
+			default:
+				return []byte{0x83, byte(l >> 16), byte(l >> 8), byte(l)}
+			}
+		}
+		nulls := bytes.Repeat([]byte{0x05, 0x00}, n)
+		octs := bytes.Repeat([]byte{0x04, 0x01, 0x41}, n)
+		wide := map[string][]byte{
+			"wide-indefinite-sequence":                 append(append([]byte{0x30, 0x80}, nulls...), 0, 0),
+			"wide-indefinite-unterminated":             append([]byte{0x30, 0x80}, nulls...),
+			"wide-definite-sequence":                   append(append([]byte{0x30}, derLen(len(nulls))...), nulls...),
+			"wide-definite-set":                        append(append([]byte{0x31}, derLen(len(octs))...), octs...),
+			"wide-indefinite-constructed-octet-string": append(append([]byte{0x24, 0x80}, octs...), 0, 0),
+			"wide-indefinite-in-context-tag":           append(append(append([]byte{0x30, 0x80, 0xa0, 0x80}, octs...), 0, 0), 0, 0),
+		}
+		for di := range decs {
+			d := &decs[di]
+			switch d.name {
+			case "x509.ber2der", "x509.ParsePKCS7+use", "x509.ParseCertificate", "x509.ParseCRL", "pkcs12.DecodeAll", "sm2.DecryptAsn1", "x509.ParsePKCS8UnecryptedPrivateKey":
+				for _, k := range sortedKeys(wide) {
+					cases = append(cases, tcase{d, fmt.Sprintf("nesting-flat/%s/%d", k, n), wide[k], -1})
+				}
 			}
 		}
 	}
